@@ -49,6 +49,8 @@ func (e *Engine) mapContentOf(st *State, o *Obj, where string) *MapContent {
 
 func (e *Engine) lookup(st *State, x *ssa.Lookup, m Value, k Value, where string) Value {
 	c := e.C
+	e.eqSt = st
+	defer func() { e.eqSt = nil }()
 	if sv, ok := m.(StringV); ok {
 		return e.indexValue(st, sv, k, x.X.Type(), where)
 	}
@@ -73,6 +75,8 @@ func (e *Engine) lookup(st *State, x *ssa.Lookup, m Value, k Value, where string
 }
 
 func (e *Engine) mapUpdate(st *State, m PtrV, k, v Value, where string) {
+	e.eqSt = st
+	defer func() { e.eqSt = nil }()
 	c := e.C
 	for _, alt := range m.Alts {
 		if alt.G.IsFalse() {
